@@ -211,6 +211,33 @@ def run(rep, tier):
         rep.ok("C20.R4", fn, "the dispatch switch has a case for every handler method %s" % sorted(methods))
     else:
         rep.bad("C20.R4", fn, sw[0].term.get("loc", fn.loc), "switch-coverage", "handler methods without a case: %s; unknown cases: %s" % (sorted(methods - set(cases)), sorted(set(cases) - methods)))
+    # dispatch() + trigger(): the receiver's set_value runs both; dispatch completes the receiver itself (set_error) when the MPI call
+    # fails, so trigger - which completes or registers exactly once (below) - may only run when dispatch did not complete
+    svs = [f for f in T_.find(r"^pika::transform_mpi_detail::operation_state::receiver::set_value$") if f.parent == -1]
+    disp = [f for f in T_.find(r"^pika::transform_mpi_detail::operation_state::receiver::dispatch$") if f.parent == -1]
+    if not svs or not disp:
+        raise AnalysisBroken("transform_mpi receiver::set_value / dispatch not found")
+    disp_completes = any(e.get("k") == "call" and callee_of(e) in (NS + "set_error", NS + "set_value", NS + "set_stopped") for f in disp for _, _, e in f.all_events())
+    nchk = 0
+    for sv in svs[:2]:
+        for lam in [sv] + list(sv.lambdas()):
+            tg = [(b, i, e) for b, i, e in lam.all_events() if e.get("k") == "call" and callee_short(e) == "trigger"]
+            dp = [(b, i, e) for b, i, e in lam.all_events() if e.get("k") == "call" and callee_short(e) == "dispatch"]
+            if not tg or not dp:
+                continue
+            nchk += 1
+            ffl = FactFlow(lam)
+            for b, i, e in tg:
+                fb = ffl.before.get((b, i)) or frozenset()
+                guarded = any(("dispatch" in a or "status" in a) for a, t in fb)
+                if disp_completes and not guarded:
+                    rep.bad("C20.R4", lam, loc_of(e), "dispatch-then-trigger", "receiver::set_value calls trigger() unconditionally after dispatch(), but dispatch() completes the "
+                            "receiver with set_error when the MPI call fails: trigger() then tests the null request (MPI_Test reports it complete) and signals the "
+                            "already completed receiver a second time with set_value")
+                else:
+                    rep.ok("C20.R4", lam, "trigger() runs only when dispatch() did not complete the receiver")
+    if nchk < 1:
+        raise AnalysisBroken("transform_mpi receiver::set_value: dispatch/trigger call pair not found")
     handoff = {"yield_while": ("set_value",), "suspend_resume": ("set_value_error_helper",), "new_task": ("add_new_task_request_callback",),
                "continuation": ("add_continuation_request_callback",), "mpix_continuation": ("register_mpix_continuation",)}
     from engine.kinds import eval_walk
